@@ -26,7 +26,13 @@ def run(ctx):
     rnr = ctx.rule('R-NODEREUSE', 'one callback object is registered on at most one shared core (intrusive next link)',
                    minimum=4)
     ctx.assume('a Result delivered to a combinator is never Empty')
+    rlc = ctx.rule('R-LOOPCALLER', 'Here() of the combinator callbacks returns nullptr (they are not cores: nothing may be '
+                  'handed back to the Loop with them as the caller)', minimum=10)
+    rmv = ctx.rule('R-MOVEOUT.site', 'the strategies take input values through Retire(); no move-out of a possibly '
+                   'shared input core', minimum=0)
     for cfg, fb in sorted(fbs.items()):
+        lib_core.check_move_sites(ctx, fb, rmv, lambda f: 'async/when' in f.file)
+        lib_core.check_loop_caller(ctx, fb, rlc, lambda f: f.clsq.startswith('yaclib::when::'))
         fns = lib_accessor.functions_with_accessors(fb, ANY_FILES)
         if not fns:
             ctx.broken('no accessor call found in when/any.hpp (%s)' % cfg)
